@@ -283,14 +283,14 @@ func (w *World) TimedRun(s *kernel.Sim) {
 	case <-w.doneCh:
 	case <-time.After(timedReturn):
 		w.mu.Lock()
-		state := "range-not-exhausted"
+		state := "no-return-range-not-exhausted"
 		switch {
 		case w.cancelled:
-			state = "after-cancel"
+			state = "no-return-after-cancel"
 		case w.stopEffective:
-			state = "after-stop"
+			state = "no-return-after-stop"
 		}
-		s.Violate("liveness", w.modeName()+"|timed|"+state, "timed mode: the run has not returned after %v of fake time although every request is answered after at most three faults: published %d", timedReturn, w.size)
+		s.Violate("liveness", w.modeName()+"|"+state, "timed mode: the run has not returned after %v of fake time although every request is answered after at most three faults: published %d", timedReturn, w.size)
 		w.mu.Unlock()
 		w.cancel()
 		select {
